@@ -58,3 +58,9 @@ Proof.
   rewrite forallb_forall in H. specialize (H b Hb).
   destruct (tfs_trace gen_hub gen_registry a b) as [tr| |]; [exists tr; reflexivity|discriminate|discriminate].
 Qed.
+
+Lemma installed_roundtrip_l : forall table fwd bwd valid a b x y,
+  bijective_registry table fwd bwd valid gen_registry -> a <> b -> valid a x ->
+  tfs_transform table fwd bwd gen_hub gen_registry a b x = TOk table y ->
+  valid b y /\ tfs_transform table fwd bwd gen_hub gen_registry b a y = TOk table x.
+Proof. intros table fwd bwd valid a b x y. apply roundtrip_inv. exact gen_registry_inv. Qed.
